@@ -61,7 +61,126 @@ fn build(e: &J) -> Regex {
     }
 }
 
+// ---------------------------------------------------------------------------
+// in-circuit parser: AutomatonChip::parse on the automaton compiled from an expression
+
+use midnight_circuits::{
+    field::{
+        decomposition::{chip::{P2RDecompositionChip, P2RDecompositionConfig}, pow2range::Pow2RangeChip},
+        native::NB_ARITH_COLS,
+        NativeChip, NativeGadget,
+    },
+    instructions::{AssignmentInstructions, PublicInputInstructions},
+    parsing::automaton_chip::{AutomatonChip, AutomatonConfig, NB_AUTOMATA_COLS},
+    types::{AssignedByte, ComposableChip},
+};
+use midnight_curves::Fq as F;
+use midnight_proofs::{
+    circuit::{Layouter, SimpleFloorPlanner, Value},
+    plonk::{Circuit, ConstraintSystem, Error},
+};
+
+#[derive(Clone, Debug, Default)]
+pub struct ParseCircuit {
+    pub expr: J,
+    pub word: Vec<u8>,
+}
+
+type NGf = NativeGadget<F, P2RDecompositionChip<F>, NativeChip<F>>;
+
+impl Circuit<F> for ParseCircuit {
+    type Config = (P2RDecompositionConfig, AutomatonConfig<usize, F>);
+    type FloorPlanner = SimpleFloorPlanner;
+    type Params = J;
+    fn without_witnesses(&self) -> Self {
+        self.clone()
+    }
+    fn params(&self) -> J {
+        self.expr.clone()
+    }
+    fn configure_with_params(meta: &mut ConstraintSystem<F>, expr: J) -> Self::Config {
+        let nb_advice_cols = std::cmp::max(NB_AUTOMATA_COLS, NB_ARITH_COLS);
+        let advice_cols = (0..nb_advice_cols).map(|_| meta.advice_column()).collect::<Vec<_>>();
+        let fixed_cols = (0..NB_ARITH_COLS + 4).map(|_| meta.fixed_column()).collect::<Vec<_>>();
+        let c = meta.instance_column();
+        let i = meta.instance_column();
+        let automata = rustc_hash::FxHashMap::from_iter([(0usize, build(&expr).to_automaton())]);
+        let native_config = NativeChip::configure(
+            meta,
+            &(advice_cols[..NB_ARITH_COLS].try_into().unwrap(), fixed_cols[..NB_ARITH_COLS + 4].try_into().unwrap(), [c, i]),
+        );
+        let automaton_config = AutomatonChip::configure(meta, &(advice_cols[..NB_AUTOMATA_COLS].try_into().unwrap(), automata));
+        let pow2range_config = Pow2RangeChip::configure(meta, &advice_cols[1..=4]);
+        (P2RDecompositionChip::configure(meta, &(native_config, pow2range_config)), automaton_config)
+    }
+    fn configure(_meta: &mut ConstraintSystem<F>) -> Self::Config {
+        unreachable!()
+    }
+    fn synthesize(&self, config: Self::Config, mut l: impl Layouter<F>) -> Result<(), Error> {
+        let native_chip = <NativeChip<F> as ComposableChip<F>>::new(&config.0.native_config(), &());
+        let core = P2RDecompositionChip::new(&config.0, &8);
+        let ng: NGf = NativeGadget::new(core.clone(), native_chip);
+        let chip = <AutomatonChip<usize, F> as ComposableChip<F>>::new(&config.1, &ng);
+        let l = &mut l;
+        let bytes: Vec<AssignedByte<F>> = ng.assign_many(l, &self.word.iter().map(|b| Value::known(*b)).collect::<Vec<_>>())?;
+        for b in bytes.iter() {
+            crate::gad::note('B', 1);
+            ng.constrain_as_public_input(l, b)?;
+        }
+        let markers = chip.parse(l, &0usize, &bytes)?;
+        for m in markers.iter() {
+            crate::gad::note('n', 1);
+            ng.constrain_as_public_input(l, m)?;
+        }
+        core.load(l)?;
+        chip.load(l)
+    }
+}
+
+fn parse_main(args: &[String]) -> i32 {
+    let scen = util::read_ndjson(&args[0]);
+    let mut out = util::create(&args[1]);
+    writeln!(out, "{}", json!({"ev":"header","prop":"C19","half":"parser","n":scen.len()})).unwrap();
+    for sc in scen.iter() {
+        let k = sc["k"].as_u64().unwrap_or(10) as u32;
+        for w in sc["words"].as_array().unwrap() {
+            let word: Vec<u8> = w.as_array().unwrap().iter().map(|b| b.as_u64().unwrap() as u8).collect();
+            let c = ParseCircuit { expr: sc["lib"].clone(), word: word.clone() };
+            let r = crate::gad::run_game(&c, k, None);
+            let exposed: Vec<u64> = r.exposed.iter().map(|x| {
+                let v = crate::gad::nat_of_f(x);
+                if v.len() > 4 { u32::MAX as u64 } else { v.iter().enumerate().map(|(i, d)| (*d as u64) << (8 * i)).sum::<u64>() }
+            }).collect();
+            writeln!(out, "{}", json!({"ev":"Parse","id":sc["id"],"word":word,"status":r.status,"exposed":exposed,"detail":r.detail,"tampered":false})).unwrap();
+            // a lying prover on accepted words: every (sampled) advice assignment x fault
+            if r.status == "sat" {
+                if let Some(faults) = sc["faults"].as_array() {
+                    let maxi = sc["max_index"].as_u64().unwrap_or(30) as usize;
+                    let stride = (r.nassign / maxi.max(1)).max(1);
+                    let mut i = 0;
+                    while i < r.nassign {
+                        for f in faults {
+                            let t = crate::gad::run_game(&c, k, Some((i, crate::gad::fault_of(f.as_str().unwrap()))));
+                            let exposed: Vec<u64> = t.exposed.iter().map(|x| {
+                                let v = crate::gad::nat_of_f(x);
+                                if v.len() > 4 { u32::MAX as u64 } else { v.iter().enumerate().map(|(i, d)| (*d as u64) << (8 * i)).sum::<u64>() }
+                            }).collect();
+                            writeln!(out, "{}", json!({"ev":"Parse","id":sc["id"],"word":word,"status":t.status,"exposed":exposed,"detail":t.detail,
+                                "tampered":true,"tamper":{"i":i,"fault":f}})).unwrap();
+                        }
+                        i += stride;
+                    }
+                }
+            }
+        }
+    }
+    0
+}
+
 pub fn main(args: &[String]) -> i32 {
+    if args[0] == "parse" {
+        return parse_main(&args[1..]);
+    }
     let scen = util::read_ndjson(&args[0]);
     let mut out = util::create(&args[1]);
     writeln!(out, "{}", json!({"ev":"header","prop":"C19","n":scen.len()})).unwrap();
